@@ -538,7 +538,7 @@ def execute(world: World, h, res, rws):
 def nz_expected(items):
     """n(z) from the ingredient triple (cross, ref, unk) of CD values: value and
     samples; NaN where the formula is undefined (absent/zero/negative radicand)."""
-    cross, ref, unk = items
+    cross, ref, unk = items[:3]
     dz = np.diff(np.array(zedges(cross["edges"])))
 
     def one(wsp, wss, wpp, b):
@@ -601,7 +601,7 @@ class Judge:
     # -----------------------------------------------------------------
     def detail(self, scen, hist, res, extra):
         d = dict(scenario={k: (sorted(v) if isinstance(v, (set, frozenset)) else v) for k, v in scen.items()},
-                 history=[_short_entry(h) for h in hist], expected=_short_res(res))
+                 history=[_short_entry(h) for h in hist], expected=_short_res(res), hist_full=hist)
         d.update(extra)
         return d
 
@@ -710,14 +710,21 @@ class Judge:
             if kind != "val" or not isinstance(val, w.RedshiftData):
                 self.violation(h, vws, "returns_wrong_type", det(real=_describe(val)))
                 return None
-            data, samples = nz_expected(res["items"])
-            bad = []
-            if list(np.asarray(val.binning.edges, dtype=float)) != zedges(res["items"][0]["edges"]):
-                bad.append("edges")
-            if not _nz_same(np.asarray(val.data), data):
-                bad.append("data")
-            if not _nz_same(np.asarray(val.samples), samples):
-                bad.append("samples")
+            triples = [res["items"][:3]] + ([[res["items"][3], res["items"][1], res["items"][2]]] if len(res["items"]) > 3 else [])
+            first_bad = None
+            for triple in triples:
+                data, samples = nz_expected(triple)
+                bad = []
+                if list(np.asarray(val.binning.edges, dtype=float)) != zedges(triple[0]["edges"]):
+                    bad.append("edges")
+                if not _nz_same(np.asarray(val.data), data):
+                    bad.append("data")
+                if not _nz_same(np.asarray(val.samples), samples):
+                    bad.append("samples")
+                if not bad:
+                    break
+                first_bad = first_bad or bad
+            bad = bad and first_bad
             if bad:
                 self.violation(h, vws, "wrong_" + bad[0],
                                det(fields=bad, real_data=[float(x) for x in np.asarray(val.data)], model_data=[float(x) for x in data]))
@@ -954,3 +961,26 @@ def corrupt(res: dict) -> dict | None:
     if res["out"] == "rej":
         return None
     return None
+
+
+def replay_case(ctx, world: World, path: str, *, own_ops=None, sampling_is_foreign=False) -> None:
+    """./check <id> --replay <file>: TLC regenerates the history of the stored
+    case (same scenario, same operations); it is executed and judged again."""
+    doc = json.loads(open(path).read())
+    det = doc["detail"]
+    if "hist_full" not in det:
+        raise tlc.TLCMachineryError("this replay file does not stem from a model history (end-to-end case): rerun the check")
+    scen = dict(det["scenario"])
+    scen["mem"] = frozenset(scen["mem"])
+    hist = det["hist_full"]
+    ops = sorted({h["op"] for h in hist})
+    res = run_model([scen], ops, len(hist), invariants=["TypeOK", "AcceptIffValid"], emit=True, focus=False, workers=2)
+    ctx.add_tlc("Containers ideal, history of the replayed case", res)
+    inits, steps = parse_emitted(res.out)
+    want = {Replayer.hkey(hist[:n]) for n in range(1, len(hist) + 1)}
+    chain = [st for st in steps if Replayer.hkey(st[1]) in want]
+    ctx.require(len(chain) == len(hist), "the stored history is not a behaviour of the specification any more")
+    rp = Replayer(ctx, world, ctx.prop, inits, chain, sampling_is_foreign=sampling_is_foreign, own_ops=own_ops)
+    rp.run()
+    ctx.validated(1)
+    ctx.sample(dict(replayed=path, key=doc["key"], history=det["history"]))
